@@ -19,6 +19,11 @@ if "plan" in spec:
     outs, mirs, log = {}, {}, []
     for st in spec["plan"]:
         try:
+            if st[0] == "write":
+                with open(st[1], "w", encoding="utf-8") as _f:      # the user edits a file between two compilations
+                    _f.write(st[2])
+                log.append("written")
+                continue
             if st[0] == "trace":
                 src = open(st[1], encoding="utf-8").read()
                 ns = {"__name__": "prog"}
@@ -31,7 +36,7 @@ if "plan" in spec:
             log.append("ok")
         except Exception as e:    # noqa
             log.append(type(e).__name__)
-            if st[0] != "trace":
+            if st[0] not in ("trace", "write"):
                 mirs[st[-1]] = {"exc": type(e).__name__, "msg": str(e)[:300], "phase": st[0]}
     r = mirs.get(spec["report"], {"exc": "NotCompiled", "msg": "", "phase": "plan"})
     r["log"] = log
